@@ -502,7 +502,11 @@ def run_check(prop, spec, tier, replay_path=None):
     write_evidence(prop, tier, seed, spec.get('level', 'exploration'), cov, spec.get('assumptions', []), wall, len(violations))
     for t in known_hits:
         print('KNOWN-FINDING: property=%s %s' % (prop, t))
+    shown = set()
     for rp, msg in violations:
+        if rp in shown:  # several shards can shrink to the same minimal case
+            continue
+        shown.add(rp)
         print('VIOLATION property=%s replay=%s' % (prop, rp))
         print('  ' + msg[:600])
     for n in notes:
